@@ -56,8 +56,8 @@ Record VamInvU (c : vcfg) (v : vam) (unreg dang : list Z) : Prop := mkVamInv {
   vi_def_type : forall t l, get_blist v (LDef t) = Some l -> bl_type l = t;
   vi_lists : forall lr l, get_blist v lr = Some l -> blist_wf c l;
   vi_pools_nodup : NoDup (map p_uid (v_pools v));
-  vi_pools_uid : Forall (fun p => 0 < p_uid p < v_next_uid v) (v_pools v);
-  vi_pools_id : NoDup (map p_id (v_pools v)) /\ Forall (fun p => 0 <= p_id p < v_next_pool_id v) (v_pools v);
+  vi_pools_uid : Forall (fun p => p_uid p < v_next_uid v) (v_pools v);
+  vi_pools_id : NoDup (map p_id (v_pools v)) /\ Forall (fun p => p_id p < v_next_pool_id v) (v_pools v);
   (* device *)
   vi_dev_nodup : NoDup (map dm_id (m_mems (v_m v)));
   vi_dev_next : Forall (fun d => 0 < dm_id d <= m_next (v_m v)) (m_mems (v_m v));
@@ -387,10 +387,10 @@ Proof.
   - intros t l H. destruct (Hcases _ _ H0 H) as [(E & ->)|(Hne & Hg)]; [subst lr; rewrite Hty; eauto|eauto].
   - intros lr1 l1 H. destruct (Hcases _ _ H0 H) as [(-> & ->)|(Hne & Hg)]; eauto.
   - rewrite set_blist_uids. auto.
-  - rewrite set_blist_next_uid. eapply Forall_map_eq with (f := p_uid) (P := fun u => 0 < u < v_next_uid v);
+  - rewrite set_blist_next_uid. eapply Forall_map_eq with (f := p_uid) (P := fun u => u < v_next_uid v);
       [symmetry; apply set_blist_uids|reflexivity|exact vi_pools_uid0].
   - rewrite set_blist_pids, set_blist_next_pid. destruct vi_pools_id0 as (Hn & Hf). split; [auto|].
-    eapply Forall_map_eq with (f := p_id) (P := fun u => 0 <= u < v_next_pool_id v);
+    eapply Forall_map_eq with (f := p_id) (P := fun u => u < v_next_pool_id v);
       [symmetry; apply set_blist_pids|reflexivity|exact Hf].
   - rewrite set_blist_m. auto.
   - rewrite set_blist_m. auto.
